@@ -113,6 +113,9 @@ impl Runner {
     pub fn run(&self, case: &Case, record: bool) -> Option<RunOut> {
         let p = self.parser(&case.parser, &case.layout)?;
         let mut cfg = RunCfg { faults: case.faults.clone(), ignore_expected: case.ignore_expected, budget: 0, record_calls: record, via_file: None };
+        if case.input.len() > LONG_INPUT {
+            cfg.budget = if p.glr() { 600_000 } else { 2_500_000 };
+        }
         if case.via_file {
             let path = self.scratch.join("input.txt");
             if std::fs::write(&path, &case.input).is_err() {
@@ -128,7 +131,16 @@ impl Runner {
                 s.arm(true);
             }
         }
-        let out = if case.seq_prefix.is_empty() {
+        let out = if case.seq_prefix.is_empty() && case.input.len() > LONG_INPUT {
+            // "any length": a long stream is parsed on a thread with the stack a
+            // `std::thread::spawn` gives by default (2 MiB), fixed here so that
+            // the verdict does not depend on the ulimit of whoever runs the check
+            let input = &case.input;
+            let cfg = &cfg;
+            std::thread::scope(|sc| {
+                std::thread::Builder::new().stack_size(LONG_STACK).spawn_scoped(sc, move || p.run(input, cfg)).ok().and_then(|h| h.join().ok())
+            })?
+        } else if case.seq_prefix.is_empty() {
             p.run(&case.input, &cfg)
         } else {
             let mut all = case.seq_prefix.clone();
@@ -183,6 +195,11 @@ pub fn judge(r: &Runner, case: &Case, o: &RunOut) -> Option<(String, String, Str
             let key = if n.file.starts_with("generated:") { format!("panic|{}|{}", n.file.split(':').nth(1).unwrap_or(""), report::normalise_msg(&n.msg)) } else { format!("panic|{}", report::panic_key(&r.paths, &n)) };
             Some(("panic".into(), key, format!("parse panicked at {}:{} msg={:?} [{} {}; {}]", n.file, n.line, n.msg.chars().take(120).collect::<String>(), case.parser, case.layout, case.damage)))
         }
+        // long streams are about stack depth, panics and aborts: GLR is worst-case
+        // cubic and the layout parser works per byte, so a long stream may
+        // legitimately need more seam events than the (reduced) budget it runs
+        // under; the hang verdict is given on ordinary-length inputs only
+        Out::Budget if case.input.len() > LONG_INPUT => None,
         Out::Budget => Some(("hang".into(), format!("hang|{}", case.parser), format!("parse exceeded the budget of seam events (deterministic hang detector) [{} {}; {}]", case.parser, case.layout, case.damage))),
         Out::Ok { .. } => {
             // "must surface as an error result", where it is decidable
@@ -238,6 +255,9 @@ impl Stats {
 fn bump(m: &mut BTreeMap<String, u64>, k: &str) {
     *m.entry(k.to_string()).or_insert(0) += 1;
 }
+
+/// Stack of the thread long streams are parsed on (= std's default for spawned threads).
+pub const LONG_STACK: usize = 2 << 20;
 
 const SPECIALS: &[&str] = &["é", "→", "😀", "\u{301}", "\u{1}", "\u{feff}", "\u{a0}", "\u{2003}", "\u{2028}", "\r", "\t", "\0", "\u{7f}", "\u{200b}", "ß", "§"];
 
@@ -368,6 +388,82 @@ pub fn subcases(p: &dyn ParserCase, sentence: &[u8], base: &RunOut, thorough: bo
                 v.extend_from_slice(sp.as_bytes());
                 v.extend_from_slice(&sentence[bpos..]);
                 f(deliver(mk(v, format!("U+{:04X} inserted at {bpos}", sp.chars().next().unwrap() as u32), "insertion")));
+            }
+        }
+    }
+    // 5. long streams ("any length"): a retried append writes a block r times.
+    // Blocks are token-aligned windows (a list element, an opening bracket,
+    // an operator + operand ...), so the result is a long list, a deep nest or
+    // an error far into the stream; each also with garbage appended at the very
+    // end (an error after a long accepted prefix), and a single byte inside a
+    // token written r times (a very long token).  Sizes are bounded by the
+    // predicted number of seam events (linear in the length for LR).
+    if !sentence.is_empty() && sentence.len() <= 4096 && base.events > 0 {
+        let per_byte = (base.events as f64 / sentence.len() as f64).max(0.05);
+        let max_len_by_events = (1_500_000.0 / per_byte) as usize;
+        let sel = fnv64(sentence) ^ fnv64(p.id().as_bytes()) ^ seed;
+        // GLR costs far more per token (and is cubic on ambiguous grammars):
+        // smaller streams, and in the quick tier only for a quarter of the items
+        let mut targets: Vec<usize> = vec![];
+        if p.glr() {
+            if thorough || sel % 4 == 1 {
+                targets.push(if thorough { 64 << 10 } else { 24 << 10 });
+            }
+        } else {
+            targets.push(if thorough { 256 << 10 } else { 48 << 10 });
+            if thorough || sel % 4 == 0 {
+                targets.push(if thorough { 4 << 20 } else { 1 << 20 });
+            }
+        }
+        let wins: Vec<(usize, usize)> = bounds.windows(2).map(|w| (w[0], w[1])).filter(|(a, z)| z > a).collect();
+        let mut picked: Vec<(usize, usize)> = vec![];
+        if !wins.is_empty() {
+            let n = if thorough { 8 } else if p.glr() { 1 } else { 2 };
+            for j in 0..n {
+                let w = wins[((sel as usize).wrapping_add(j * 7919)) % wins.len()];
+                if !picked.contains(&w) {
+                    picked.push(w);
+                }
+            }
+            // the block from the first token start to the last boundary but one
+            // (whole sentence minus its tail), and the whole sentence
+            picked.push((wins[0].0, wins[wins.len() - 1].0.max(wins[0].1)));
+        }
+        picked.push((0, sentence.len()));
+        for &target in &targets {
+            let target = target.min(max_len_by_events);
+            if target <= LONG_INPUT {
+                continue;
+            }
+            for &(a, z) in &picked {
+                let r = target / (z - a);
+                if r < 2 {
+                    continue;
+                }
+                let mut v = Vec::with_capacity(sentence.len() + r * (z - a) + 8);
+                v.extend_from_slice(&sentence[..a]);
+                for _ in 0..r {
+                    v.extend_from_slice(&sentence[a..z]);
+                    // blocks that end in a token are kept apart
+                    if !v.last().map(|c| c.is_ascii_whitespace()).unwrap_or(true) && is_text && z == sentence.len() {
+                        v.push(b' ');
+                    }
+                }
+                v.extend_from_slice(&sentence[z..]);
+                f(deliver(mk(v.clone(), format!("block {a}..{z} written {r} times ({} bytes)", v.len()), "long-stream")));
+                let mut g = v;
+                g.extend_from_slice(if is_text { "\u{1}".as_bytes() } else { &[0xff] });
+                f(deliver(mk(g, format!("block {a}..{z} written {r} times, then garbage at the very end"), "long-stream")));
+            }
+            // one byte inside a token written many times
+            if let Some(&(a, z)) = wins.get((sel as usize >> 8) % wins.len().max(1)) {
+                let at = a + (sel as usize >> 16) % (z - a);
+                if !is_text || sentence[at].is_ascii() {
+                    let mut v = sentence[..at].to_vec();
+                    v.extend(std::iter::repeat(sentence[at]).take(target));
+                    v.extend_from_slice(&sentence[at..]);
+                    f(deliver(mk(v, format!("byte {at} written {target} times"), "long-token")));
+                }
             }
         }
     }
